@@ -67,12 +67,13 @@ func Gen() *rapid.Generator[Case] {
 var errInjected = errors.New("injected I/O failure")
 
 type faultyIt struct {
-	kvs    []tbl.KV
-	pos    int
-	calls  int
-	faults []Fault
-	fired  *int
-	broken bool
+	sstables.SSTableIteratorI // nil: only there so that the fake keeps compiling when the interface grows
+	kvs                       []tbl.KV
+	pos                       int
+	calls                     int
+	faults                    []Fault
+	fired                     *int
+	broken                    bool
 }
 
 func (it *faultyIt) Next() ([]byte, []byte, error) {
@@ -98,11 +99,12 @@ func (it *faultyIt) Next() ([]byte, []byte, error) {
 }
 
 type faultyWriter struct {
-	out    []tbl.Pair
-	calls  int
-	faults []Fault
-	fired  *int
-	broken bool
+	sstables.SSTableStreamWriterI // nil, see faultyIt
+	out                           []tbl.Pair
+	calls                         int
+	faults                        []Fault
+	fired                         *int
+	broken                        bool
 }
 
 func (w *faultyWriter) Open() error  { return nil }
